@@ -1,6 +1,6 @@
 (* C03 -- Values embedded in the .ui equal the value of their source expression.  ONLY property theorems here. *)
 From Coq Require Import Lia.
-From QV Require Import model.Base model.Lang model.Types model.Tir model.Floats model.Ceval model.Literal proofs.CevalProofs proofs.LiteralProofs.
+From QV Require Import model.Base model.Lang model.Types model.Tir model.Floats model.Ceval model.Literal proofs.CevalProofs proofs.LiteralProofs gen.GenOps model.Builder proofs.OpsTie.
 Open Scope Z_scope.
 
 (* constant folding (checked i64 arithmetic) returns the EXACT integer result or rejects; it never returns another value.
@@ -77,6 +77,28 @@ Print Assumptions C03_hex_escape.
 Theorem C03_scalar_value : forall v, char_from_u32 v = Some (Z.to_N v) <-> (v <= 1114111 /\ ~ (55296 <= v <= 57343)).
 Proof. exact scalar_value_spec. Qed.
 Print Assumptions C03_scalar_value.
+
+(* the operators: the model lowers every source operator exactly as opcode.rs does (gen/GenOps.v is translated from it arm by arm on every run), ... *)
+Theorem C03_operators_lowered_as_in_the_source : (forall o, bop_of o = gen_bop_of o) /\ (forall o, uop_of o = gen_uop_of o).
+Proof. split; [exact bop_of_is_source|exact uop_of_is_source]. Qed.
+Print Assumptions C03_operators_lowered_as_in_the_source.
+(* ... the source refuses exactly the operators that have no checked 64-bit meaning here (>>> ** ?? instanceof in; typeof void delete), and no two operators
+   of different ECMAScript meaning share a lowering: only the strict comparisons join their loose twins (equal on operands of one type, the only ones accepted) *)
+Theorem C03_refused_operators : (forall o, gen_bop_of o = None <-> In o [BUShr; BExp; BNullish; BInstanceof; BIn])
+  /\ (forall o, gen_uop_of o = None <-> In o [UTypeof; UVoid; UDelete]).
+Proof.
+  split; intros o; (split; [destruct o; cbn; intros H; try discriminate H; intuition|intros H; cbn in H; intuition; subst; reflexivity]).
+Qed.
+Print Assumptions C03_refused_operators.
+Theorem C03_lowering_conflates_only_strict_twins : forall o o' b, gen_bop_of o = Some b -> gen_bop_of o' = Some b ->
+  o = o' \/ (In o [BEq; BSEq] /\ In o' [BEq; BSEq]) \/ (In o [BNe; BSNe] /\ In o' [BNe; BSNe]).
+Proof.
+  intros o o' b H H'. destruct o; cbn in H; try discriminate H; injection H as <-; destruct o'; cbn in H'; try discriminate H'; cbn; intuition.
+Qed.
+Print Assumptions C03_lowering_conflates_only_strict_twins.
+Theorem C03_unary_lowering_injective : forall o o' u, gen_uop_of o = Some u -> gen_uop_of o' = Some u -> o = o'.
+Proof. intros o o' u H H'. destruct o; cbn in H; try discriminate H; injection H as <-; destruct o'; cbn in H'; try discriminate H'; reflexivity. Qed.
+Print Assumptions C03_unary_lowering_injective.
 
 (* F5 after the repair *)
 Example C03_f5_repaired : eval_shift BoShl (CInt 1) (CInt 63) = inr CeOverflow /\ eval_shift BoShl (CInt 3) (CInt 62) = inr CeOverflow
